@@ -16,6 +16,7 @@ use std::sync::Arc;
 
 pub fn swarm() -> Swarm {
     Swarm {
+        alloc_modes: true,
         io: true,
         stalls: true,
         stall_max_ns: 1_000_000,
